@@ -23,6 +23,8 @@ PLAN = {
  "C01-M5":["C10"], "C02-M5":["C02"], "C03-M5":["C03"], "C04-M5":["C04"], "C05-M5":["C05"], "C06-M5":["C06"], "C07-M5":["C11", "C07"],
  "C08-M5":["C08"], "C09-M5":["C09"], "C10-M5":["C10"], "C11-M5":["C11"], "C12-M5":["C12"], "C13-M5":["C10", "C13"], "C14-M5":["C14"],
  "C15-M5":["C15"], "C16-M5":["C04", "C16"], "C17-M5":["C17"], "C19-M5":["C19"], "C20-M5":["C20"],
+ # round 4 (M6)
+ "C01-M6":["C17"], "C06-M6":["C06"], "C07-M6":["C07"], "C13-M6":["C13"], "C19-M6":["C19"], "C20-M6":["C04"],
 }
 claimed = {c["property_id"] for c in json.load(open("/verif/MANIFEST.json"))["checks"]}
 def sh(cmd, **kw): return subprocess.run(cmd, shell=True, capture_output=True, text=True, **kw)
